@@ -268,6 +268,17 @@ func c01History(t *testing.T, idx int, seed uint64) {
 					if len(fs) > 3 {
 						fs = fs[:3]
 					}
+					// now and then a filter the client does not hold (or the same filter twice) somewhere
+					// in the list: the others are removed all the same
+					if r.Intn(3) == 0 {
+						extra := genFilterC01(r, false)
+						if r.Intn(3) == 0 {
+							extra = fs[r.Intn(len(fs))]
+						}
+						at := r.Intn(len(fs) + 1)
+						fs = append(fs[:at:at], append([]string{extra}, fs[at:]...)...)
+						out.Count("c01.unsubscribe_mixed", 1)
+					}
 				}
 				ops = append(ops, fmt.Sprintf("%s unsubscribe %q", c.name, fs))
 				ack, _ := c.unsubscribeB(fs)
